@@ -181,7 +181,54 @@ func main() {
 	shrinkWall := flag.Int("shrink-wall-ms", 0, "wall-clock budget of the shrinking of one failing case in the stream (0: none)")
 	traceEvery := flag.Int("trace-every", 4, "record the page trace of every k-th document (documents with footnotes and hanging documents are always traced; 0: only those)")
 	tracePages := flag.Int("trace-pages", 60, "page cap of a page trace")
+	printN := flag.Int("print", 0, "print the first N generated documents that have a reference-graph tag containing -print-tag, and exit")
+	tagStats := flag.Int("tagstats", 0, "print the distribution of the ref: tags over the first N generated documents, and exit")
+	printTag := flag.String("print-tag", "ref:", "see -print")
 	flag.Parse()
+
+	if *tagStats > 0 { // distribution of the reference-graph tags over the first N generated documents
+		rng := vlib.NewRng(vlib.Seed())
+		cnt := map[string]int{}
+		for i := 0; i < *tagStats; i++ {
+			for _, t := range GenDoc(rng.Fork()).Features(false) {
+				if strings.HasPrefix(t, "ref:") || strings.HasPrefix(t, "file:") {
+					cnt[t]++
+				}
+			}
+		}
+		keys := make([]string, 0, len(cnt))
+		for k := range cnt {
+			keys = append(keys, k)
+		}
+		sort.Strings(keys)
+		for _, k := range keys {
+			fmt.Printf("%-40s %d\n", k, cnt[k])
+		}
+		return
+	}
+	if *printN > 0 {
+		rng := vlib.NewRng(vlib.Seed())
+		for i, k := 0, 0; i < 100000 && k < *printN; i++ {
+			d := GenDoc(rng.Fork())
+			tags := strings.Join(d.Features(false), " ")
+			if !strings.Contains(tags, *printTag) {
+				continue
+			}
+			k++
+			fmt.Printf("==== doc %d\n%s\n", i, d.HTML())
+			for _, f := range d.Files {
+				fmt.Printf("---- file %s\n%s\n", f.Name, f.Content())
+			}
+			var rt []string
+			for _, t := range d.Features(false) {
+				if strings.HasPrefix(t, "ref:") {
+					rt = append(rt, t)
+				}
+			}
+			fmt.Printf("---- %s\n", strings.Join(rt, " "))
+		}
+		return
+	}
 
 	pool := NewPool(*par)
 	defer pool.Close()
